@@ -204,6 +204,31 @@ def mutate(rng, text, n=None, eol='\n'):
     return out, names
 
 
+def envelope_soup(rng, icvn=None):
+    """a well-formed ISA followed by 3-16 envelope and body segments in ARBITRARY order (headers never closed, trailers never opened, a set after
+    the interchange ended, a second ISA inside a set ...): every state of the readers' envelope stack, not only those one mutation away from a
+    valid document. Control numbers and counts come from small pools so that they sometimes agree."""
+    from vlib import ref_envelope as RE
+    icvn = icvn or rng.choice(['00401', '00501'])
+    ver = '004010X098A1' if icvn == '00401' else '005010X222A1'
+    ids = ['1', '2', '0001', '0002', '000000007', '', 'X']
+    cnt = ['0', '1', '2', '3', '', 'X']
+
+    def isa():
+        return 'ISA*' + '*'.join(RE.isa_elements(rng.choice(['000000007', '000000008']), icvn))
+    toks = [lambda: isa(),
+            lambda: 'GS*HC*S*R*20240102*1230*%s*X*%s' % (rng.choice(ids), ver),
+            lambda: 'ST*837*%s%s' % (rng.choice(ids), ('*' + ver) if icvn == '00501' and rng.random() < 0.7 else ''),
+            lambda: 'BHT*0019*00*1*20240102*1230*CH', lambda: 'HL*%s**20*1' % rng.choice(['1', '2', 'X']), lambda: 'NM1*41*2*X*****46*1', lambda: 'LX*%s' % rng.choice(['1', '2']),
+            lambda: 'SE*%s*%s' % (rng.choice(cnt), rng.choice(ids)), lambda: 'GE*%s*%s' % (rng.choice(cnt), rng.choice(ids)), lambda: 'IEA*%s*%s' % (rng.choice(cnt), rng.choice(ids)),
+            lambda: rng.choice(['SE', 'GE', 'IEA', 'ST', 'GS', 'TA1*000000007*240102*1230*A*000'])]
+    weights = [1, 3, 4, 2, 1, 1, 1, 4, 4, 3, 1]
+    out = [isa()]
+    for _ in range(rng.randint(3, 16)):
+        out.append(rng.choices(toks, weights)[0]())
+    return '~\n'.join(out) + '~\n'
+
+
 def fuzz_string(rng):
     k = rng.choice(['empty', 'short', 'isa-only', 'isa-short', 'printable', 'x12ish', 'isa-bad-version', 'isa-then-garbage', 'not-isa', 'isa-lowercase'])
     isa = 'ISA*00*          *00*          *ZZ*SENDER         *ZZ*RECEIVER       *040608*1333*U*00401*000000001*0*P*:~'
